@@ -358,14 +358,26 @@ Definition ev_st2 (s : st2) (lets : list nat) : Q :=
   let t := app_q1 (pauli_mat (nth 1 lets 0)) (app_q0 (pauli_mat (nth 0 lets 0)) s) in
   Qmake (st2_inner_re s t) (Z.to_pos (st2_norm2 s)).
 
-(* Born rule for computational-basis measurement of both qubits after the rotations chosen for g;
-   with pauli_indices = [0; 1] the register word is the basis index *)
-Definition law_st2 (s : st2) (g : list nat) : list (N * Q) :=
-  let r := app_q1 (snd (rotation_of (nth 1 g 0))) (app_q0 (snd (rotation_of (nth 0 g 0))) s) in
+(* the register word produced by basis state b (index b0 + 2 b1): bit i of the word = bit pidx[i] of b *)
+Fixpoint word_of (pidx : list nat) (i : nat) (b : N) : N :=
+  match pidx with
+  | [] => 0%N
+  | q :: r => N.lor (if N.testbit b (N.of_nat q) then N.shiftl 1 (N.of_nat i) else 0%N) (word_of r (S i) b)
+  end.
+
+(* Born rule for computational-basis measurement after the rotations chosen for the letters gc ON THE CIRCUIT'S
+   QUBITS; measured: circuit qubit pq[i] -> register bit i.  Listed per basis state (equal words are summed by expect). *)
+Definition law_st2_circ (s : st2) (gc : list nat) (pq : list nat) : list (N * Q) :=
+  let r := app_q1 (snd (rotation_of (nth 1 gc 0))) (app_q0 (snd (rotation_of (nth 0 gc 0))) s) in
   let '(a0, a1, a2, a3) := r in
   let d := Z.to_pos (st2_norm2 r) in
-  [(0%N, Qmake (gi_norm2 a0) d); (1%N, Qmake (gi_norm2 a1) d);
-   (2%N, Qmake (gi_norm2 a2) d); (3%N, Qmake (gi_norm2 a3) d)].
+  let w := word_of pq 0 in
+  [(w 0%N, Qmake (gi_norm2 a0) d); (w 1%N, Qmake (gi_norm2 a1) d);
+   (w 2%N, Qmake (gi_norm2 a2) d); (w 3%N, Qmake (gi_norm2 a3) d)].
+
+(* identity qubit_locations: the law of the observable register (qubit pauli_indices_or_dummy[i] -> bit i) *)
+Definition law_st2 (s : st2) (g : list nat) : list (N * Q) :=
+  law_st2_circ s g (pauli_indices_or_dummy (nonid_positions g)).
 
 (* an entangled, non-symmetric state: 2|00> + i|01> + (1+i)|10> + (1-2i)|11>   (norm^2 = 12) *)
 Definition psi_ex : st2 := ((2, 0), (0, 1), (1, 1), (1, -2))%Z.
@@ -386,4 +398,263 @@ Lemma born_instance_YY : born (ev_st2 psi_ex) [2; 2] (law_st2 psi_ex [2; 2]).
 Proof.
   intros sel idx S. subst S idx. change (nonid_positions [2; 2]) with [0; 1].
   cbn [filter]. destruct (sel 0), (sel 1); vm_compute; reflexivity.
+Qed.
+
+(* instances with an identity letter, and the forced dummy measurement *)
+Lemma born_instance_XI : born (ev_st2 psi_ex) [1; 0] (law_st2 psi_ex [1; 0]).
+Proof.
+  intros sel idx S. subst S idx. change (nonid_positions [1; 0]) with [0].
+  cbn [filter]. destruct (sel 0); vm_compute; reflexivity.
+Qed.
+
+Lemma born_instance_IY : born (ev_st2 psi_ex) [0; 2] (law_st2 psi_ex [0; 2]).
+Proof.
+  intros sel idx S. subst S idx. change (nonid_positions [0; 2]) with [1].
+  cbn [filter]. destruct (sel 1); vm_compute; reflexivity.
+Qed.
+
+Lemma born_instance_dummy : born (ev_st2 psi_ex) [0; 0] (law_st2 psi_ex [0; 0]).
+Proof.
+  intros sel idx S. subst S idx. change (nonid_positions [0; 0]) with (@nil nat).
+  cbn [filter]. vm_compute. reflexivity.
+Qed.
+
+(* =========================================================================================
+   _process_outcome: the split of the outcome word
+   ========================================================================================= *)
+Lemma process_outcome_split idx masks obs qpd :
+  let k := N.of_nat (length (pauli_indices_or_dummy idx)) in
+  (obs < 2 ^ k)%N ->
+  process_outcome idx masks (obs + qpd * 2 ^ k)
+  = map (fun m => (sgn (Nat.odd (popcount qpd)) * decode m obs)%Z) masks.
+Proof.
+  intros k H. unfold process_outcome. fold k.
+  assert (P : (2 ^ k <> 0)%N) by (apply N.pow_nonzero; discriminate).
+  assert (E1 : N.land (obs + qpd * 2 ^ k) (N.pred (N.shiftl 1 k)) = obs).
+  { rewrite N.shiftl_1_l, <- N.ones_equiv, N.land_ones, N.mod_add by assumption. apply N.mod_small; assumption. }
+  assert (E2 : N.shiftr (obs + qpd * 2 ^ k) k = qpd).
+  { rewrite N.shiftr_div_pow2, N.div_add by assumption. rewrite N.div_small by assumption. reflexivity. }
+  rewrite E1, E2. apply map_ext. intros m. f_equal. destruct (Nat.odd (popcount qpd)); reflexivity.
+Qed.
+
+(* =========================================================================================
+   what the suffix does, with the interned gate ids interpreted as matrices
+   ========================================================================================= *)
+(* composition  later . earlier  of two gates M/sqrt d *)
+Definition gcomp (later earlier : gate2) : gate2 :=
+  ((fst later * fst earlier)%Z, mmul (snd later) (snd earlier)).
+Definition upd_fun (f : nat -> gate2) (q : nat) (g : gate2) : nat -> gate2 :=
+  fun x => if Nat.eqb x q then g else f x.
+
+(* Walk an instruction list; `pending q` is the unitary applied to qubit q since its last measurement.
+   A Measure q -> c emits (q, c, the signed Pauli U† Z U that this Z-measurement measures), read off the matrix. *)
+Definition record := (nat * nat * option (Z * nat))%type.
+Fixpoint readout (sem : nat -> gate2) (pending : nat -> gate2) (l : list instr) : list record :=
+  match l with
+  | [] => []
+  | i :: r =>
+      match iop i, iqs i, ics i with
+      | Gate g, [q], _ => readout sem (upd_fun pending q (gcomp (sem g) (pending q))) r
+      | Measure, [q], [c] => (q, c, signed_pauli_of (pending q) mZ) :: readout sem (upd_fun pending q gId) r
+      | _, _, _ => readout sem pending r
+      end
+  end.
+
+Lemma upd_fun_same f q u : upd_fun f q u q = u.
+Proof. unfold upd_fun. now rewrite Nat.eqb_refl. Qed.
+
+Lemma readout_suffix_from sem gh gsx g locs bits :
+  sem gh = gH -> sem gsx = gSX ->
+  forall idx c pending, (forall q, pending q = gId) ->
+  readout sem pending (suffix_from gh gsx g locs bits c idx)
+  = map (fun ci => (nth (snd ci) locs 0, nth (fst ci) bits 0,
+                    signed_pauli_of (rotation_of (nth (snd ci) g 0)) mZ))
+        (combine (seq c (length idx)) idx).
+Proof.
+  intros Hh Hs. induction idx as [|sub r IH]; intros c pending HP; [reflexivity|].
+  cbn [suffix_from length seq combine map fst snd].
+  assert (HP' : forall x (u : gate2), forall q, upd_fun (upd_fun pending x u) x gId q = gId).
+  { intros x u q. unfold upd_fun. destruct (Nat.eqb q x); [reflexivity|apply HP]. }
+  assert (HP'' : forall x, forall q, upd_fun pending x gId q = gId).
+  { intros x q. unfold upd_fun. destruct (Nat.eqb q x); [reflexivity|apply HP]. }
+  destruct (nth sub g 0) as [|[|[|l]]] eqn:El.
+  - cbn [readout iop iqs ics]. rewrite HP. f_equal. apply IH. apply HP''.
+  - cbn [readout iop iqs ics]. rewrite upd_fun_same, HP, Hh. f_equal.
+    apply IH. apply HP'.
+  - cbn [readout iop iqs ics]. rewrite upd_fun_same, HP, Hs. f_equal.
+    apply IH. apply HP'.
+  - cbn [readout iop iqs ics]. rewrite HP. f_equal. apply IH. apply HP''.
+Qed.
+
+Lemma readout_measurement_suffix sem gh gsx g idx locs bits :
+  sem gh = gH -> sem gsx = gSX ->
+  readout sem (fun _ => gId) (measurement_suffix gh gsx g idx locs bits)
+  = map (fun ci => (nth (snd ci) locs 0, nth (fst ci) bits 0,
+                    signed_pauli_of (rotation_of (nth (snd ci) g 0)) mZ))
+        (combine (seq 0 (length (pauli_indices_or_dummy idx))) (pauli_indices_or_dummy idx)).
+Proof. intros Hh Hs. apply readout_suffix_from; auto. Qed.
+
+(* =========================================================================================
+   expectation values at circuit level: the hypothesis speaks about the records read off the suffix
+   ========================================================================================= *)
+Definition rec_qubit (r : record) : nat := fst (fst r).
+Definition rec_clbit (r : record) : nat := snd (fst r).
+Definition rec_none : record := (0, 0, None).
+
+(* sub-selection of a record list by position *)
+Definition select (sel : nat -> bool) (l : list record) : list record :=
+  map (fun i => nth i l rec_none) (filter sel (seq 0 (length l))).
+
+Definition recs_sign (S : list record) : Z :=
+  fold_right (fun r acc => match snd r with Some sl => (fst sl * acc)%Z | None => 0%Z end) 1%Z S.
+
+(* the Pauli string on the circuit's qubits carried by a record list (identity where no record sits) *)
+Definition circ_letters (nqc : nat) (S : list record) : list nat :=
+  map (fun Q => match find (fun r => Nat.eqb (rec_qubit r) Q) S with
+                | Some (_, _, Some (_, l)) => l
+                | _ => 0
+                end) (seq 0 nqc).
+
+(* a subsystem Pauli string placed on the circuit's qubits through qubit_locations *)
+Definition embed_letters (nqc : nat) (locs m : list nat) : list nat :=
+  map (fun Q => match index_of Q locs with Some k => nth k m 0 | None => 0 end) (seq 0 nqc).
+
+Open Scope Q_scope.
+(* Born/Heisenberg hypothesis about a circuit suffix: `recs` are the (qubit, clbit, U† Z U) records of its
+   measurements, `bits` the clbits of the observable register (bit i of an outcome word = clbit bits[i]),
+   ev_c a state functional on Pauli strings over the circuit's nqc qubits.  For every sub-selection S of the records
+      E_law[ prod_{r in S} (-1)^{bit of clbit r} ] = sign(S) * ev_c( tensor of the records' Paulis on their qubits ). *)
+Definition born_circuit (ev_c : list nat -> Q) (nqc : nat) (recs : list record) (bits : list nat)
+           (law : list (N * Q)) : Prop :=
+  forall sel : nat -> bool,
+    let S := select sel recs in
+    expect law (fun b => sign_product (outcome_bit bits b) (map rec_clbit S))
+    == inject_Z (recs_sign S) * ev_c (circ_letters nqc S).
+Close Scope Q_scope.
+
+Lemma map_combine_seq {B} (R : nat * nat -> B) : forall l a,
+  map R (combine (seq a (length l)) l) = map (fun i => R (i, nth (i - a) l 0)) (seq a (length l)).
+Proof.
+  induction l as [|x r IH]; intros a; [reflexivity|].
+  cbn [length seq combine map]. rewrite Nat.sub_diag. cbn [nth]. f_equal.
+  rewrite IH. apply map_ext_in. intros i Hi. apply in_seq in Hi.
+  replace (i - a) with (S (i - S a)) by lia. reflexivity.
+Qed.
+
+Lemma select_map_seq (f : nat -> record) sel n :
+  select sel (map f (seq 0 n)) = map f (filter sel (seq 0 n)).
+Proof.
+  unfold select. rewrite map_length, seq_length. apply map_ext_in. intros i Hi.
+  apply filter_In in Hi as [Hi _]. apply in_seq in Hi.
+  rewrite (nth_indep _ rec_none (f 0)) by (rewrite map_length, seq_length; lia).
+  rewrite map_nth, seq_nth by lia. reflexivity.
+Qed.
+
+Lemma sign_product_map_filter (bit : nat -> bool) (h : nat -> nat) (sel : nat -> bool) l :
+  sign_product bit (map h (filter sel l)) = sgn (xor_list (map (fun i => bit (h i) && sel i) l)).
+Proof.
+  induction l as [|q r IH]; [reflexivity|].
+  cbn [filter map xor_list fold_right]. fold (xor_list (map (fun i => bit (h i) && sel i) r)).
+  rewrite sgn_xorb, <- IH. destruct (sel q).
+  - cbn [map sign_product fold_right]. rewrite andb_true_r. reflexivity.
+  - rewrite andb_false_r. cbn [sgn]. destruct (sign_product bit (map h (filter sel r))); reflexivity.
+Qed.
+
+Lemma pidx_nth idx i : i < length idx -> nth i (pauli_indices_or_dummy idx) 0 = nth i idx 0.
+Proof. destruct idx; simpl; [lia|reflexivity]. Qed.
+
+Lemma pidx_length_ge idx : length idx <= length (pauli_indices_or_dummy idx).
+Proof. destruct idx; simpl; lia. Qed.
+
+Lemma sp_rotation_valid l : l <= 3 ->
+  signed_pauli_of (rotation_of l) mZ = Some (1%Z, if Nat.eqb l 0 then 3 else l).
+Proof. intros H. destruct l as [|[|[|[|l]]]]; try lia; reflexivity. Qed.
+
+Lemma expectation_circuit sem gh gsx (ev_c : list nat -> Q) nqc g locs bits law :
+  sem gh = gH -> sem gsx = gSX ->
+  valid_letters g -> NoDup locs -> length locs = length g ->
+  NoDup bits -> length bits = length (pauli_indices_or_dummy (nonid_positions g)) ->
+  born_circuit ev_c nqc
+    (readout sem (fun _ => gId) (measurement_suffix gh gsx g (nonid_positions g) locs bits)) bits law ->
+  forall m mask, member_of g m -> mask_of m (nonid_positions g) = Some mask ->
+    Qeq (expect law (decode mask)) (ev_c (embed_letters nqc locs m)).
+Proof.
+  intros Hh Hs V NDl Ll NDb Lb B m mask HM Hmask.
+  set (idx := nonid_positions g) in *.
+  set (pidx := pauli_indices_or_dummy idx) in *.
+  set (kp := length pidx) in *.
+  rewrite (readout_measurement_suffix sem gh gsx g idx locs bits Hh Hs) in B. fold pidx kp in B.
+  rewrite (map_combine_seq _ pidx 0) in B. fold kp in B. cbn [fst snd] in B.
+  set (R' := fun i : nat => (nth (nth (i - 0) pidx 0) locs 0, nth i bits 0,
+                             signed_pauli_of (rotation_of (nth (nth (i - 0) pidx 0) g 0)) mZ) : record) in B.
+  pose proof (mask_of_spec _ _ _ Hmask) as MS. fold idx in MS.
+  set (sel0 := fun i : nat => N.testbit mask (N.of_nat i)).
+  specialize (B sel0). cbv zeta in B. rewrite select_map_seq in B.
+  set (F := filter sel0 (seq 0 kp)) in *.
+  assert (HF : forall i, In i F -> i < length idx /\ nth i pidx 0 = nth i idx 0 /\ nth (nth i idx 0) m 0 <> 0).
+  { intros i Hi. apply filter_In in Hi as [_ Hi]. unfold sel0 in Hi. apply MS in Hi as [H1 H2].
+    split; [assumption|]. split; [apply pidx_nth; assumption|assumption]. }
+  assert (Lidx : length idx <= kp) by apply pidx_length_ge.
+  destruct HM as [Lm Cm].
+  assert (Gm : forall s, nth s m 0 <> 0 -> nth s g 0 = nth s m 0 /\ nth s g 0 <> 0).
+  { intros s Hs0. destruct (Cm s) as [E|E]; [contradiction|]. split; congruence. }
+  (* E1: decoding = product of the selected records' bits *)
+  assert (E1 : forall b, decode mask b = sign_product (outcome_bit bits b) (map rec_clbit (map R' F))).
+  { intros b. rewrite map_map. unfold F. rewrite sign_product_map_filter, decode_sgn. f_equal.
+    rewrite (odd_popcount kp).
+    - unfold xor_list. f_equal. apply map_ext_in. intros i Hi. apply in_seq in Hi.
+      rewrite N.land_spec. unfold rec_clbit, R', sel0. cbn [fst snd].
+      rewrite outcome_bit_nth by (assumption || lia). reflexivity.
+    - intros i Hi. rewrite N.land_spec.
+      destruct (N.testbit mask (N.of_nat i)) eqn:E; [|apply andb_false_r].
+      apply MS in E. lia. }
+  (* E2: all signs are + *)
+  assert (E2g : forall l, recs_sign (map R' l) = 1%Z).
+  { induction l as [|i r IHr]; [reflexivity|].
+    cbn [map recs_sign fold_right]. fold (recs_sign (map R' r)). rewrite IHr.
+    unfold R'. cbn [snd]. rewrite (sp_rotation_valid _ (V _)). reflexivity. }
+  pose proof (E2g F) as E2.
+  (* E3: the selected records carry exactly the member, placed through qubit_locations *)
+  assert (E3 : circ_letters nqc (map R' F) = embed_letters nqc locs m).
+  { unfold circ_letters, embed_letters. apply map_ext_in. intros Q _.
+    destruct (find (fun r => Nat.eqb (rec_qubit r) Q) (map R' F)) as [r|] eqn:Ef.
+    - apply find_some in Ef as [Hin Hq]. apply in_map_iff in Hin as [i [Hr Hi]].
+      destruct (HF i Hi) as (H1 & H2 & H3). destruct (Gm _ H3) as [G1 G2].
+      subst r. unfold R', rec_qubit in *. cbn [fst snd] in *. rewrite Nat.sub_0_r in *.
+      rewrite H2 in *. apply Nat.eqb_eq in Hq.
+      assert (Hs1 : nth i idx 0 < length locs).
+      { rewrite Ll. apply (nonid_positions_In g). apply nth_In. assumption. }
+      rewrite (sp_rotation_valid _ (V _)).
+      destruct (Nat.eqb_spec (nth (nth i idx 0) g 0) 0) as [E0|_]; [contradiction|].
+      rewrite <- Hq, (index_of_nth_NoDup locs _ NDl Hs1). assumption.
+    - destruct (index_of Q locs) as [k|] eqn:Ek.
+      + apply index_of_Some in Ek as [Hk Hq].
+        destruct (Nat.eq_dec (nth k m 0) 0) as [E0|N0]; [now rewrite E0; destruct (find _ _) as [[[? ?] [[? ?]|]]|]|].
+        exfalso. destruct (Gm _ N0) as [G1 G2].
+        assert (Hin : In k idx). { apply nonid_positions_In. unfold letter in *. split; [lia|assumption]. }
+        apply In_nth with (d := 0) in Hin as [i [Hi Hik]].
+        assert (HiF : In i F).
+        { apply filter_In. split; [apply in_seq; lia|]. unfold sel0. apply MS. rewrite Hik. auto. }
+        pose proof (find_none _ _ Ef (R' i) (in_map R' F i HiF)) as Hne.
+        unfold R', rec_qubit in Hne. cbn [fst] in Hne. pose proof (pidx_nth idx i Hi) as Hp. fold pidx in Hp.
+        rewrite Nat.sub_0_r, Hp, Hik, Hq in Hne.
+        rewrite Nat.eqb_refl in Hne. discriminate.
+      + reflexivity. }
+  rewrite (expect_ext law (decode mask) _ E1), B, E2, E3. change (inject_Z 1) with 1%Q. ring.
+Qed.
+
+(* a concrete instance of the circuit-level hypothesis: general observable XY on the subsystem,
+   qubit_locations = [1; 0] (subsystem qubit 0 sits on circuit qubit 1), register bits [0; 1],
+   gate id 7 = H, every other id = SX; the law is computed from the state vector after H on circuit qubit 1 and
+   SX on circuit qubit 0, reading circuit qubit 1 into bit 0 and circuit qubit 0 into bit 1 *)
+Definition sem_ex (id : nat) : gate2 := if Nat.eqb id 7 then gH else gSX.
+
+Lemma born_circuit_instance :
+  born_circuit (ev_st2 psi_ex) 2
+    (readout sem_ex (fun _ => gId) (measurement_suffix 7 9 [1; 2] (nonid_positions [1; 2]) [1; 0] [0; 1]))
+    [0; 1] (law_st2_circ psi_ex [2; 1] [1; 0]).
+Proof.
+  intros sel S. subst S. unfold select.
+  change (length (readout sem_ex (fun _ => gId) (measurement_suffix 7 9 [1; 2] (nonid_positions [1; 2]) [1; 0] [0; 1]))) with 2.
+  cbn [seq filter]. destruct (sel 0), (sel 1); vm_compute; reflexivity.
 Qed.
